@@ -304,4 +304,5 @@ Extraction "model.ml"
   Inlines.postprocess_block
   Inlines.mkIO
   Inlines.mkOracle
+  Inlines.fn_resolve
 .
